@@ -5,7 +5,7 @@ use vcore::drive::{prop_par, Verdict};
 use vcore::rt::{self, digest_str, Acc, Args, Report};
 use vcore::sgr::{self, MColor, MStyle};
 
-const RULE: &str = "Inputs: exhaustively all ';'-lists of 1..3 codes over 0..=110 and every extended-colour form (38/48/58 ;5;n and ;2;r;g;b, and their truncated prefixes at the end of a list) in every position of short lists; seeded random well-formed lists of up to 40 codes with leading zeros; malformed inputs (empty fields, signs, spaces, > 255, huge numbers, non-ASCII digits, trailing ';', arbitrary Unicode). Oracle: a reference fold of the SGR table of the property over the default style; None for '', '0', '00' and for anything that is not a list of decimal numbers <= 255. Excluded as undetermined (counted): an explicit '+', and a 38/48/58 that is followed by something other than a (possibly truncated-at-the-end) ;5;n / ;2;r;g;b. Non-trivial = at least 2 codes, or a reset after a set, or a rejected input (distinct by input string).";
+const RULE: &str = "Inputs: exhaustively all ';'-lists of 1..3 codes over 0..=110 and every extended-colour form (38/48/58 ;5;n and ;2;r;g;b, and their truncated prefixes at the end of a list) in every position of short lists; seeded random well-formed lists of up to 40 codes with leading zeros, and long lists of 15..1027 fields around powers of two; out-of-range numbers congruent to a code modulo 2^8/2^16/2^32/2^64; malformed inputs (empty fields, signs, spaces, > 255, huge numbers, non-ASCII digits, trailing ';', arbitrary Unicode). Oracle: a reference fold of the SGR table of the property over the default style; None for '', '0', '00' and for anything that is not a list of decimal numbers <= 255. Excluded as undetermined (counted): an explicit '+', and a 38/48/58 that is followed by something other than a (possibly truncated-at-the-end) ;5;n / ;2;r;g;b. Non-trivial = at least 2 codes, or a reset after a set, or a rejected input (distinct by input string).";
 
 #[derive(Debug, PartialEq)]
 enum Ref {
@@ -149,11 +149,44 @@ fn arb_list() -> BoxedStrategy<String> {
         .boxed()
 }
 
+/// a number that is out of range but congruent to a meaningful code modulo a power of two
+fn arb_wrapped() -> BoxedStrategy<String> {
+    (prop::sample::select(vec![8u32, 16, 31, 32, 63, 64, 100]), 0u128..=255, 1u128..=3).prop_map(|(w, n, k)| ((k << w) + n).to_string()).boxed()
+}
+
+/// long lists: lengths (in fields) around powers of two, ending in a deciding code
+fn arb_long_list() -> BoxedStrategy<String> {
+    (
+        prop::sample::select(vec![15usize, 16, 17, 31, 32, 33, 63, 64, 65, 127, 128, 129, 255, 256, 257, 511, 512, 513, 1023, 1024, 1025]),
+        0usize..=2,
+        proptest::collection::vec(arb_code(), 4..=16),
+        prop_oneof![4 => arb_code(), 1 => Just("0".to_owned()), 1 => Just("256".to_owned()), 1 => Just("x".to_owned()), 1 => Just("".to_owned())],
+    )
+        .prop_map(|(len, extra, pool, last)| {
+            // the pool's entries have 1..5 fields each; fill up to the wanted number of fields
+            let want = len + extra - 1;
+            let mut fields: Vec<&str> = Vec::new();
+            let mut i = 0;
+            while fields.len() < want {
+                let e = &pool[(i * 5 + i / pool.len()) % pool.len()];
+                i += 1;
+                let nf = e.split(';').count();
+                if fields.len() + nf <= want {
+                    fields.extend(e.split(';'));
+                } else {
+                    fields.push("1");
+                }
+            }
+            format!("{};{last}", fields.join(";"))
+        })
+        .boxed()
+}
+
 fn arb_malformed() -> BoxedStrategy<String> {
     let bad = prop::sample::select(vec![
         "", "-", "-1", " 1", "1 ", "256", "300", "999999999999", "99999999999999999999999", "١", "１", "1a", "a", "0x1", "1.0", ":", "1:2", "\u{0}", "é", " ", "+", "++1", "+-1", "1e2", "²",
     ]);
-    (proptest::collection::vec(prop_oneof![3 => arb_code(), 1 => bad.prop_map(|s| s.to_owned())], 1..=6), prop::sample::select(vec!["", ";", ";;", " "]), prop::sample::select(vec!["", ";", " "]))
+    (proptest::collection::vec(prop_oneof![6 => arb_code(), 2 => bad.prop_map(|s| s.to_owned()), 1 => arb_wrapped()], 1..=6), prop::sample::select(vec!["", ";", ";;", " "]), prop::sample::select(vec!["", ";", " "]))
         .prop_map(|(v, tail, head)| format!("{head}{}{tail}", v.join(";")))
         .boxed()
 }
@@ -215,6 +248,26 @@ fn run(args: &Args, rep: &mut Report) {
     });
     rep.add("exhaustive-lists", true, if tier == rt::Tier::Thorough { "all lists of 1..4 codes over 0..=110" } else { "all lists of 1..3 codes over 0..=110" }, accs);
 
+    // out-of-range numbers congruent to a code modulo 2^8, 2^16, 2^32, 2^64: all must be rejected
+    let mut acc = Acc::new();
+    'w: for w in [8u32, 16, 32, 64] {
+        for n in 0u128..=255 {
+            let big = ((1u128 << w) + n).to_string();
+            for s in [big.clone(), format!("1;{big}"), format!("{big};1"), format!("38;5;{big}"), format!("48;2;1;{big};3"), format!("{big};5;1")] {
+                acc.eval();
+                match rt::guarded(|| check(&s, &mut acc)) {
+                    Ok(_) => acc.nontrivial_distinct(),
+                    Err(m) => {
+                        acc.fail("wrapped-numbers", json!(s), m);
+                        break 'w;
+                    }
+                }
+            }
+        }
+    }
+    acc.samples.push(json!("4294967327"));
+    rep.add("wrapped-numbers", true, "n + 2^w for all n in 0..=255, w in {8,16,32,64}, alone, next to a code and inside the extended-colour forms", vec![acc]);
+
     // extended-colour forms in every position of short lists
     let forms: Vec<String> = {
         let mut v = vec![];
@@ -275,6 +328,8 @@ fn run(args: &Args, rep: &mut Report) {
     };
     rep.add("random-lists", false, "well-formed lists of 1..40 codes with leading zeros and extended colours",
         prop_par("random-lists", args.seed, tier.pick(60_000, 10_000_000), arb_list, body, |s| json!(s)));
+    rep.add("long-lists", false, "15..1027 fields (around powers of two) of well-formed codes ending in a deciding code (a code, 0, 256, a non-number, an empty field)",
+        prop_par("long-lists", args.seed, tier.pick(8_000, 400_000), arb_long_list, body, |s| json!(s)));
     rep.add("malformed", false, "lists with empty fields, signs, spaces, > 255, huge numbers, non-ASCII digits, trailing ';'",
         prop_par("malformed", args.seed, tier.pick(60_000, 10_000_000), arb_malformed, body, |s| json!(s)));
     rep.add("arbitrary-unicode", false, "arbitrary strings",
